@@ -30,7 +30,8 @@ def item(level):
 
 
 TRANSPARENT = ('iter', 'into_iter', 'cloned', 'copied', 'by_ref', 'iter_mut', 'deref', 'deref_mut', 'as_slice',
-               'as_mut_slice', 'as_ref', 'borrow', 'fuse', 'peekable', 'into_vec', 'to_vec', 'as_mut', 'into_boxed_slice')
+               'as_mut_slice', 'as_ref', 'borrow', 'fuse', 'peekable', 'into_vec', 'to_vec', 'as_mut', 'into_boxed_slice',
+               'collect', 'collect_vec', 'clone', 'to_owned')
 EMPTY = re.compile(r'(Vec|String|VecDeque)::(new|with_capacity)$|Default>::default$|default::Default::default$')
 APPEND = re.compile(r'(Vec|String|VecDeque)::(push|push_str|push_back|extend|extend_from_slice|append|resize|insert)$|'
                     r'Extend>::extend$|Extend<.*>::extend$')
@@ -198,6 +199,30 @@ def seq_of_iter(facts, body, t, level=0):
                     if i.elem is not None and i.kind != 'opaque':
                         i.conds.append((apply_fn(facts, a[1], (i.elem,)), True))
                 out.append(s)
+            return out
+        if n == 'filter_map' and len(a) == 2:
+            from .alts import value_alts
+            x = seq_of_iter(facts, body, a[0], level)
+            if x is None:
+                return None
+            out = []
+            for s in x:
+                if s.kind != 'each':
+                    return [Seg('each', src=nosite(t), body=body, level=level)]
+                for al in value_alts(facts, body, apply_fn(facts, a[1], (s.elem,)), expanded=True):
+                    v = peel(al.value)
+                    if v[0] == 'agg' and v[2].endswith('Option::None'):
+                        continue
+                    if v[0] == 'agg' and v[2].endswith('Option::Some'):
+                        val = v[3][0]
+                    elif v[0] == 'call' and last_seg(v[1]) in ('from_residual',):
+                        continue   # `?` inside the closure: the None continuation
+                    else:
+                        val = ('unwrap', al.value)
+                    c = s.copy()
+                    c.elem = val
+                    c.conds = c.conds + [(('is', tt, tuple(sorted(nn))), True) for tt, nn in al.variants] + list(al.atoms)
+                    out.append(c)
             return out
         if n == 'flat_map' and len(a) == 2:
             x = seq_of_iter(facts, body, a[0], level)
